@@ -413,6 +413,31 @@ pub fn exec(ctx: &mut Ctx, op: &str, p: &mut Toks) -> String {
             crate::ops::props::net_oracles_validate(ctx, &spec, &mut net, &xs, &ts, tol, train, &r);
             r.map(|(l, a)| format!("{} {} flags {}", rf(l), rf(a), r_flags(&net)))
         }
+        "relearn" => {
+            // `learn` called twice on one network (the second run starts from the parameters and the optimizer state
+            // the first left behind); the second run is reported and checked
+            let k = p.nat();
+            let (xs, ts) = samples(p, k);
+            let has_val = p.boolean();
+            let val = if has_val {
+                let kv = p.nat();
+                let (vx, vt) = samples(p, kv);
+                Some((vx, vt, p.nat() as i32))
+            } else {
+                None
+            };
+            let batch = p.nat();
+            let epochs = p.nat() as i32;
+            let ns = p.nat();
+            let script = p.v1(ns);
+            let print = p.opt_trailing_nat();
+            let job = LearnJob { xs, ts, val, batch, epochs, script, print: if print == 0 { None } else { Some(print as i32) }, phases: 2 };
+            let r = run_learn(&mut net, &job).and_then(|_| run_learn(&mut net, &job));
+            crate::ops::props::net_oracles_learn(ctx, &spec, &net, &job, &r);
+            r.map(|(tl, vl, va)| {
+                format!("{} {} {} {} | {} | {} | {} flags {}", tl.len(), vl.len(), va.len(), r1(&tl), r1(&vl), r1(&va), r_net_params(&net), r_flags(&net))
+            })
+        }
         "learn" => {
             let k = p.nat();
             let (xs, ts) = samples(p, k);
@@ -429,7 +454,7 @@ pub fn exec(ctx: &mut Ctx, op: &str, p: &mut Toks) -> String {
             let ns = p.nat();
             let script = p.v1(ns);
             let print = p.opt_trailing_nat();
-            let job = LearnJob { xs, ts, val, batch, epochs, script, print: if print == 0 { None } else { Some(print as i32) } };
+            let job = LearnJob { xs, ts, val, batch, epochs, script, print: if print == 0 { None } else { Some(print as i32) }, phases: 1 };
             let r = run_learn(&mut net, &job);
             crate::ops::props::net_oracles_learn(ctx, &spec, &net, &job, &r);
             r.map(|(tl, vl, va)| {
@@ -454,6 +479,8 @@ pub struct LearnJob {
     pub script: Vec<f32>,
     /// `learn`'s progress-printing interval; must not influence anything `learn` returns or leaves behind
     pub print: Option<i32>,
+    /// how many times in a row `learn` is called with this job (the histories of the last call are reported)
+    pub phases: usize,
 }
 
 pub fn run_learn(net: &mut Network, job: &LearnJob) -> Result<(Vec<f32>, Vec<f32>, Vec<f32>), String> {
